@@ -19,5 +19,5 @@ for d in sorted(glob.glob(os.path.join(V, "seeded", "C*"))):
     if len(need) > 230: need = need[:227] + "..."
     need = need.replace("|", "\\|")
     r = rows.get(name)
-    res = "not run" if not r else ("reported (%s, %s)" % (r[4] or "violation", r[3]) if r[2] == "rc=1" else ("MISSED" if r[2] == "rc=0" else r[2]))
+    res = "not run" if not r else ("reported (%s, %s)" % (r[4] or "violation", r[3]) if r[2] == "rc=1" else (("not reported - outside the property's stated domain, see meta.json" if m.get("outside_the_stated_domain") else "MISSED") if r[2] == "rc=0" else r[2]))
     print("| %s | %s | %s | %s |" % (name, m.get("property", "?"), need, res))
